@@ -228,6 +228,12 @@ FAMILIES = {
         'mc_sample': {'quick': 3000, 'thorough': 60000},
         'mode': 'decide', 'trace': 'Trace_Decide', 'drivers': [drv_satisfaction],
     },
+    'electre_s2': {
+        'mc': 'MC_Electre',
+        'mc_cfg': {'quick': 'MC_Electre_quick.cfg', 'thorough': 'MC_Electre_thorough.cfg'},
+        'mc_workers': 14,
+        'mode': 'distil', 'trace': 'Trace_Electre2', 'drivers': [],
+    },
     'majority': {
         'mc': 'MC_Majority',
         'mc_cfg': {'quick': 'MC_Majority_quick.cfg', 'thorough': 'MC_Majority_thorough.cfg'},
@@ -253,7 +259,14 @@ def nt_heur(o):
     return isinstance(r, list) and len(r) >= 3 and len({e['evaluation'].get('thresholdsIndex') for e in r}) >= 2
 
 
+def nt_electre2(o):
+    r = o.get('result', [])
+    return len({e['evaluation']['ascendingIndex'] for e in r}) >= 2 or len({e['evaluation']['descendingIndex'] for e in r}) >= 2
+
+
 PROPS = {
+    'C05': {'families': ['electre_s2'], 'nontrivial': nt_electre2,
+            'rule': 'non-trivial = instance whose two preorders are not both a single class; distinct by instance'},
     'C12': {'families': ['aspect'], 'nontrivial': nt_heur,
             'rule': 'non-trivial = accepted aspect-elimination request ranking >= 3 alternatives on >= 2 different level indices; distinct by request'},
     'C13': {'families': ['satisfaction'], 'nontrivial': nt_heur,
